@@ -79,6 +79,7 @@ struct Case {
   int align = 0;
   int early = -1;  // >= 0: not a buffer of its own but the index of a load-time probe (see above)
   int huge = -1;   // >= 0: index into HUGE_CASES: a buffer of 4 GiB and more (thorough tier only, see run_huge)
+  int mt = 0;      // 1: the four-thread scenario of mode "mt" (replayed with a fixed seed)
   bool valid() const { return align >= 0 && align < 64 && buf.size() <= (64u << 20) && early >= -1 && early < N_EARLY && huge >= -1 && huge < 3; }
   std::string ser() const {
     Out o;
@@ -90,6 +91,10 @@ struct Case {
       o << "property C17\nhuge " << huge << "\n";
       return o.str();
     }
+    if (mt) {
+      o << "property C17\nmt 1\n";
+      return o.str();
+    }
     o << "property C17\nbuffer " << buf.ser() << " align=" << align << "\n";
     return o.str();
   }
@@ -98,6 +103,7 @@ struct Case {
     for (auto &row : Lines::parse(t).rows)
       if (row[0] == "early" && row.size() >= 2) c.early = atoi(row[1].c_str());
       else if (row[0] == "huge" && row.size() >= 2) c.huge = atoi(row[1].c_str());
+      else if (row[0] == "mt" && row.size() >= 2) c.mt = atoi(row[1].c_str()) ? 1 : 0;
       else if (row[0] == "buffer" && row.size() >= 2) {
         c.buf = BStr::parse(row[1]);
         for (size_t i = 2; i < row.size(); i++)
@@ -193,10 +199,67 @@ static Result run_huge(int idx) {
     r.tag("buffer_ge_4GiB");
   }, 1500);
 }
+// the function is called from many threads at once in real use (pool workers, reader threads): four threads checksum their
+// own buffers (lengths 0..20000, every alignment) concurrently; each value is compared with the reference
+static bool mt_round(uint64_t seed, int worker, long per, long long &n_eval) {
+    struct MtJob {
+      uint32_t seed;
+      long n;
+      long bad_len = -1;
+      int bad_align = 0;
+      uint32_t got = 0, want = 0;
+      long done = 0;
+    };
+        std::vector<MtJob> jobs(4);
+    std::vector<pthread_t> th(4);
+    for (int t = 0; t < 4; t++) {
+      jobs[(size_t)t].seed = (uint32_t)(seed * 7919u + (uint32_t)worker * 131u + (uint32_t)t) | 1;
+      jobs[(size_t)t].n = per;
+      pthread_create(&th[(size_t)t], nullptr, [](void *p) -> void * {
+        MtJob *j = (MtJob *)p;
+        uint32_t x = j->seed;
+        auto nx = [&]() { x = x * 1664525u + 1013904223u; return x >> 8; };
+        std::vector<uint8_t> buf(20000 + 16);
+        for (long i = 0; i < j->n && j->bad_len < 0; i++) {
+          size_t len = i % 4 == 0 ? nx() % 64 : i % 4 == 1 ? nx() % 1200 : nx() % 20000;
+          int al = (int)(nx() % 8);
+          uint8_t *p2 = buf.data() + al;
+          for (size_t k = 0; k < len; k += 1 + k / 64) p2[k] = (uint8_t)nx();
+          uint32_t want = ref::crc32c_ref(p2, len), got = mtbl_crc32c(p2, len);
+          if (got != want) {
+            j->bad_len = (long)len;
+            j->bad_align = al;
+            j->got = got;
+            j->want = want;
+          }
+          j->done++;
+        }
+        return nullptr;
+      }, &jobs[(size_t)t]);
+    }
+    for (auto &t : th) pthread_join(t, nullptr);
+    for (auto &j : jobs) {
+      n_eval += j.done;
+      if (j.bad_len >= 0) {
+        snprintf(g_err, sizeof g_err, "mtbl_crc32c(len %ld, alignment %d) = %08x while three other threads were checksumming their own buffers; the standard CRC-32C is %08x",
+                 j.bad_len, j.bad_align, j.got, j.want);
+        return false;
+      }
+    }
+    return true;
+}
 static Result run_case(const Case &c) {
   Result r;
   g_have_sse = my_crc32c_sse42_supported();
   if (c.huge >= 0) return run_huge(c.huge);
+  if (c.mt) {
+    long long n = 0;
+    for (int w = 0; w < 8 && !r.fail; w++)
+      if (!mt_round(1, w, 20000, n)) r.failf("%s", g_err);
+    r.nontrivial = true;
+    r.tag("four_threads_concurrently");
+    return r;
+  }
   if (c.early >= 0) {
     if (!check_early(c.early)) r.failf("%s", g_err);
     r.nontrivial = EARLY_LENS[c.early] >= 1;
@@ -276,6 +339,15 @@ static int extra_modes(const WorkerOpts &o, Stats &stats) {
       for (int i = 0; i < 100000; i++) big.push_back((char)rnd());
       if (ref::crc32c_bitwise(U(big), big.size()) != ref::crc32c_ref(U(big), big.size())) { snprintf(g_err, sizeof g_err, "harness: table-driven reference != bitwise reference"); return fail_out(o, big, 0); }
     }
+  } else if (o.mode == "mt") {
+    if (!mt_round(o.seed, o.worker, o.geti("count", 4000), n_eval)) {
+      Case mc;
+      mc.mt = 1;
+      write_file(o.outdir + "/fail.case", mc.ser());
+      write_file(o.outdir + "/fail.msg", g_err);
+      return 1;
+    }
+    stats.tags["four_threads_concurrently"] += 1;
   } else if (o.mode == "huge") {
     for (int i = o.worker; i < 3; i += o.nworkers) {
       Case hc;
